@@ -60,6 +60,24 @@ CLAIMS = {
         "text": "Decides the ME/OperationStatus/BDS dispatch tables (all identifier values), that every field of the interpreted payloads reads part of exactly one reference slice in order MSB-first, the three scalings on every raw value, and big-endian contexts of multi-byte reads. Field *names* are not compared with the standard (positional comparison); f32 representation error is not decided.",
         "note": TRUST,
     },
+    "C05": {
+        "engine": "ai", "technique": "abstract interpretation of the NL decision chain and of get_position on symbolic reports; polynomial normal forms of the extracted float formulas",
+        "design_ref": "DESIGN.md §4 C05",
+        "text": "Decides STRUCTURAL NECESSARY CONDITIONS only: the NL table (58 thresholds to 8 decimals, |lat| symmetry, ordering), the evaluated constants, None for equal parity, the latitude and longitude formulas as polynomial normal forms for both orders of the pair (zone of the SECOND report, wraps at 270/180 with >=), and that Some(..) is returned only behind NL equality and the latitude range test. NOT decided: the ~5 m accuracy everywhere on Earth, re-encoding to the report's CPR values, numeric longitude range (f64 arithmetic).",
+        "note": TRUST,
+    },
+    "C12": {
+        "engine": "ai", "technique": "abstract interpretation of Airplanes::action on every decoded frame kind against a symbolic map model; whole-crate scans of map-mutating calls and counter writers",
+        "design_ref": "DESIGN.md §4 C12",
+        "text": "Decides per frame kind and path: keys used on the map = the announced address f[8..32); message count changes by exactly 1 for DF17/DF18 and nothing is touched otherwise; Added::Yes iff the address was vacant; only entry()/retain() mutate the map (retain only in prune). The history-level statement follows by induction over frames (not mechanised).",
+        "note": TRUST,
+    },
+    "C13": {
+        "engine": "ai", "technique": "abstract interpretation of the tracker's position update against a tagged symbolic record (get_position stubbed); polynomial normal form of the distance",
+        "design_ref": "DESIGN.md §4 C13",
+        "text": "Decides: the pairing call gets the new report in the slot of its parity plus the stored other slot; every rejecting path ends with the empty record; rejection/publication are guarded by `haversine(receiver, candidate) > max_range` and `> 100.0` from the previous position; the published distance's normal form is the haversine formula with R = 6371. Numeric accuracy / threshold behaviour of f64 are not decided; the history-level claim follows by induction (not mechanised).",
+        "note": TRUST,
+    },
     "C03": {
         "engine": "ai",
         "technique": "const-evaluated table comparison + GF(2) bit-provenance abstract interpretation of the checksum loop",
